@@ -69,6 +69,10 @@ func (g *Gen) doCall(st *State, c *ssa.Call) *Val {
 		if prm := funcParamOf(cc.Value); prm != nil {
 			for _, pp := range g.spec.PureParams {
 				if pp == prm.Name() {
+					// the call owes the precondition the caller promised the function tolerates
+					if specMentionsFunpre(g.spec, pp) {
+						g.oblige("pre@call", "funpre("+pp+"):"+text, pos, st.reach, g.funPreTerm(pp, args))
+					}
 					for _, dp := range g.spec.DetParams {
 						if dp == pp && isScalarKind(kindOf(c.Type())) {
 							r := &Val{K: kindOf(c.Type()), T: c.Type(), S: g.detResTerm(pp, args, kindOf(c.Type()))}
@@ -386,6 +390,63 @@ func (g *Gen) doCopy(st *State, c *ssa.Call, d, s *Val) *Val {
 
 // ---------- calls with contracts ----------
 
+// funPreTerm: the (uninterpreted) precondition predicate of purefunc parameter pp applied to args
+func (g *Gen) funPreTerm(pp string, args []*Val) string {
+	f := sym("funpre|" + pp)
+	var as, srts []string
+	for _, a := range args {
+		if !isScalarKind(a.K) {
+			unsup("funpre %s: non-scalar argument", pp)
+		}
+		as = append(as, a.S)
+		srts = append(srts, sortOfKind(a.K))
+	}
+	g.declareOnce(f, fmt.Sprintf("(declare-fun %s (%s) Bool)", f, strings.Join(srts, " ")))
+	if len(as) == 0 {
+		return f
+	}
+	return "(" + f + " " + strings.Join(as, " ") + ")"
+}
+
+// specMentionsFunpre: does the contract constrain the arguments it hands to purefunc parameter pp?
+func specMentionsFunpre(sp *FuncSpec, pp string) bool {
+	for _, cl := range sp.Requires {
+		if strings.Contains(cl.E.String(), "funpre("+pp+",") {
+			return true
+		}
+	}
+	return false
+}
+
+// funPreOf: the requires clauses of the known function f instantiated with args (plus the default non-nil
+// precondition of its pointer/interface parameters).  Must be heap-independent.
+func (g *Gen) funPreOf(env *Env, f *ssa.Function, args []*Val) string {
+	if len(args) != len(f.Params) {
+		unsup("funpre: %s takes %d arguments", fnDisplayName(f), len(f.Params))
+	}
+	sp := g.P.specs[specKeyOf(f)]
+	pkg := env.pkg
+	if sp != nil {
+		pkg = sp.Pkg
+	}
+	fenv := g.newEnv(env.cur, env.cur, pkg)
+	var conj []string
+	for i, prm := range f.Params {
+		fenv.vars[prm.Name()] = args[i]
+		if (args[i].K == KPtr || args[i].K == KIface) && !(sp != nil && sp.Nilable[prm.Name()]) {
+			conj = append(conj, not(eq(args[i].S, "0")))
+		}
+	}
+	if sp != nil {
+		g.noHeap++
+		for _, cl := range sp.Requires {
+			conj = append(conj, g.evalBool(fenv, g.P.expand(cl.E)))
+		}
+		g.noHeap--
+	}
+	return and(conj...)
+}
+
 // detResTerm: the result of calling the `detfunc` parameter pp on args (an uninterpreted function of the arguments)
 func (g *Gen) detResTerm(pp string, args []*Val, rk Kind) string {
 	f := sym("detres|" + pp)
@@ -506,6 +567,14 @@ func (g *Gen) callWithSpec(st *State, c *ssa.Call, sp *FuncSpec, fn *ssa.Functio
 				if af := staticFuncOf(c.Common().Args[i]); af != nil {
 					if asp := g.P.specs[specKeyOf(af)]; asp != nil && asp.HasMod && !asp.ModAll && len(asp.Modifies) == 0 {
 						ok = true
+						if env.funArgs == nil {
+							env.funArgs = map[string]*ssa.Function{}
+						}
+						env.funArgs[pp] = af
+						// a callee that says nothing about the arguments it passes on can only take a function without preconditions
+						if len(asp.Requires) > 0 && !specMentionsFunpre(sp, pp) {
+							ok = false
+						}
 					}
 				}
 				goal := "false"
@@ -553,6 +622,7 @@ func (g *Gen) callWithSpec(st *State, c *ssa.Call, sp *FuncSpec, fn *ssa.Functio
 	// results
 	res := g.havocResult(st, c.Type(), "ret_"+calleeName)
 	post := g.newEnv(st, pre, sp.Pkg)
+	post.funArgs = env.funArgs
 	for k, v := range env.vars {
 		post.vars[k] = v
 	}
@@ -1041,7 +1111,8 @@ func (g *Gen) checkCallAsserts(st *State, c *ssa.Call, args []*Val) {
 			if lb == "" {
 				lb = part.String()
 			}
-			g.oblige("assert", fmt.Sprintf("%s#%d:%s", name, ca.N, lb), c.Pos(), st.reach, g.evalBool(env, part))
+			// (at a join the obligation is emitted once per incoming path: quantified goals are hard to case-split for the solvers)
+			g.obligeSplit("assert", fmt.Sprintf("%s#%d:%s", name, ca.N, lb), c.Pos(), st.reach, g.evalBool(env, part))
 		}
 	}
 }
